@@ -64,6 +64,10 @@ struct State
     std::map<void*, std::array<uint32_t, MAXT>> guardVc;
     std::map<void*, int> guardOwner;
     int conflictsSeen{0};
+    int atomicChecks{0};
+    std::map<void*, std::array<uint32_t, MAXT>> syncVc;  // mutexes, once flags: clock of the last release
+    std::map<void*, int> syncOwner;                        // who holds a mutex / runs a once-initialiser
+    std::map<void*, bool> onceDone;
 };
 State* g = nullptr;
 
@@ -181,8 +185,29 @@ inline void yieldPoint()
     --t_inRt;
 }
 
+// std::atomic operations are always-inline members of <bits/atomic_base.h>; plain atomic loads and stores are instrumented
+// like ordinary ones, so a conflict between two of them is recognised by where the accesses sit and is not a data race
+bool isAtomicAccess(uintptr_t pc)
+{
+    static std::map<uintptr_t, bool> cache;
+    auto it = cache.find(pc);
+    if (it != cache.end())
+        return it->second;
+    const std::string where = symbolize(pc);
+    const bool a = where.find("atomic_base.h") != std::string::npos || where.find("(atomic:") != std::string::npos ||
+                   where.find("shared_ptr_atomic.h") != std::string::npos;
+    cache[pc] = a;
+    return a;
+}
+
 void reportConflict(const char* kind, uintptr_t addr, int otherTid, uintptr_t otherPc, uintptr_t pc)
 {
+    if (g->atomicChecks < 2000)
+    {
+        ++g->atomicChecks;
+        if (isAtomicAccess(pc) && isAtomicAccess(otherPc))
+            return;
+    }
     g->conflictsSeen++;
     if (g->rep.conflicts.size() >= 3)
         return;
@@ -481,6 +506,117 @@ extern "C"
             --t_inRt;
         }
         __real___cxa_guard_abort(guard);
+    }
+}
+
+// ------------------------------------------------------------------------------------------------ mutexes and once flags
+// A scheduled thread must never block in the kernel while it holds the baton, and lock/unlock, once-initialisation are
+// happens-before edges for the detector.
+#include <errno.h>
+#include <pthread.h>
+namespace
+{
+void acquireFrom(void* obj)
+{
+    auto v = g->syncVc.find(obj);
+    if (v != g->syncVc.end())
+        for (int u = 0; u < MAXT; ++u)
+            if (v->second[static_cast<size_t>(u)] > g->vc[t_tid][u])
+                g->vc[t_tid][u] = v->second[static_cast<size_t>(u)];
+}
+void releaseTo(void* obj)
+{
+    auto& v = g->syncVc[obj];
+    for (int u = 0; u < MAXT; ++u)
+        if (g->vc[t_tid][u] > v[static_cast<size_t>(u)])
+            v[static_cast<size_t>(u)] = g->vc[t_tid][u];
+    g->vc[t_tid][t_tid]++;
+}
+}  // namespace
+extern "C"
+{
+    int __real_pthread_mutex_lock(pthread_mutex_t*);
+    int __real_pthread_mutex_trylock(pthread_mutex_t*);
+    int __real_pthread_mutex_unlock(pthread_mutex_t*);
+    int __real_pthread_once(pthread_once_t*, void (*)(void));
+    int __wrap_pthread_mutex_lock(pthread_mutex_t* m)
+    {
+        if (t_tid < 0 || t_inRt || !g)
+            return __real_pthread_mutex_lock(m);
+        ++t_inRt;
+        int rc;
+        while ((rc = __real_pthread_mutex_trylock(m)) == EBUSY)
+        {
+            auto it = g->syncOwner.find(m);
+            int owner = it == g->syncOwner.end() ? pickOther(t_tid) : it->second;
+            if (owner < 0 || owner == t_tid || g->finished[owner])
+                owner = pickOther(t_tid);
+            if (owner < 0)
+                break;
+            switchTo(owner);  // let the holder go on instead of blocking with the baton in hand
+        }
+        if (rc == EBUSY)
+            rc = __real_pthread_mutex_lock(m);
+        if (rc == 0)
+        {
+            g->syncOwner[m] = t_tid;
+            acquireFrom(m);
+        }
+        --t_inRt;
+        return rc;
+    }
+    int __wrap_pthread_mutex_trylock(pthread_mutex_t* m)
+    {
+        int rc = __real_pthread_mutex_trylock(m);
+        if (rc == 0 && t_tid >= 0 && !t_inRt && g)
+        {
+            ++t_inRt;
+            g->syncOwner[m] = t_tid;
+            acquireFrom(m);
+            --t_inRt;
+        }
+        return rc;
+    }
+    int __wrap_pthread_mutex_unlock(pthread_mutex_t* m)
+    {
+        if (t_tid >= 0 && !t_inRt && g)
+        {
+            ++t_inRt;
+            releaseTo(m);
+            g->syncOwner.erase(m);
+            --t_inRt;
+        }
+        return __real_pthread_mutex_unlock(m);
+    }
+    int __wrap_pthread_once(pthread_once_t* once, void (*fn)(void))
+    {
+        if (t_tid < 0 || t_inRt || !g)
+            return __real_pthread_once(once, fn);
+        ++t_inRt;
+        for (;;)
+        {
+            if (g->onceDone.count(once))
+                break;
+            auto it = g->syncOwner.find(once);
+            if (it == g->syncOwner.end() || it->second == t_tid || g->finished[it->second])
+                break;
+            switchTo(it->second);  // another thread is inside the initialiser: let it finish
+        }
+        if (g->onceDone.count(once))
+        {
+            acquireFrom(once);
+            --t_inRt;
+            return __real_pthread_once(once, fn);  // already done: returns at once
+        }
+        g->syncOwner[once] = t_tid;
+        --t_inRt;
+        int rc = __real_pthread_once(once, fn);  // runs fn on this thread (instrumented, may be preempted)
+        ++t_inRt;
+        releaseTo(once);
+        g->onceDone[once] = true;
+        g->syncOwner.erase(once);
+        --t_inRt;
+        return rc;
     }
 }
 
